@@ -102,6 +102,8 @@ vgp_malloc_ok(size_t n)
                    (vg)->tag != NULL && (vg)->ref != NULL)
 /* the handle resolves to an attached vgroup */
 #define VKEY_OK(vkey) ((vkey) == g_key && g_grp == VGIDGROUP && g_obj != NULL && g_obj->vg != NULL)
+/* member edits additionally need a Vgroup attached for writing (C14) */
+#define VKEYW_OK(vkey) (VKEY_OK(vkey) && g_vg->access == 'w')
 
 /* ------------------------------------------------------------------ contracts */
 
@@ -146,7 +148,7 @@ int32 Vaddtagref(int32 vkey, int32 tag, int32 ref)
     __CPROVER_assigns(g_vg->nvelt, g_vg->msize, g_vg->marked, g_vg->tag, g_vg->ref,
                       __CPROVER_object_whole(g_vg->tag), __CPROVER_object_whole(g_vg->ref))
     __CPROVER_frees(g_vg->tag, g_vg->ref)
-    __CPROVER_ensures(!VKEY_OK(vkey) ==> (__CPROVER_return_value == FAIL && g_vg->nvelt == __CPROVER_old(g_vg->nvelt)))
+    __CPROVER_ensures(!VKEYW_OK(vkey) ==> (__CPROVER_return_value == FAIL && g_vg->nvelt == __CPROVER_old(g_vg->nvelt)))
     __CPROVER_ensures(__CPROVER_return_value == FAIL ||
                       __CPROVER_return_value == (int32)__CPROVER_old(g_vg->nvelt) + 1)
     __CPROVER_ensures(__CPROVER_return_value != FAIL ==>
@@ -173,7 +175,7 @@ int Vdeletetagref(int32 vkey, int32 tag, int32 ref)
     __CPROVER_requires(DT_K(g_k, g_kt, g_kr) && DT_K(g_k + 1, g_k1t, g_k1r) && DT_K(g_j + 1, g_j1t, g_j1r))
     __CPROVER_assigns(g_vg->nvelt, g_vg->marked, __CPROVER_object_whole(g_vg->tag), __CPROVER_object_whole(g_vg->ref))
     __CPROVER_ensures(__CPROVER_return_value == SUCCEED || __CPROVER_return_value == FAIL)
-    __CPROVER_ensures(!VKEY_OK(vkey) ==> __CPROVER_return_value == FAIL)
+    __CPROVER_ensures(!VKEYW_OK(vkey) ==> __CPROVER_return_value == FAIL)
     /* E1 */
     __CPROVER_ensures(__CPROVER_return_value == SUCCEED ==> ((int)g_vg->nvelt == (int)__CPROVER_old(g_vg->nvelt) - 1 && g_vg->marked == TRUE))
     /* E2: member k of the new list is old member k or old member k+1 */
@@ -190,7 +192,7 @@ int Vdeletetagref(int32 vkey, int32 tag, int32 ref)
     __CPROVER_ensures(__CPROVER_return_value == FAIL ==>
                       (g_vg->nvelt == __CPROVER_old(g_vg->nvelt) && g_vg->marked == __CPROVER_old(g_vg->marked) &&
                        DT_K(g_k, g_kt, g_kr)))
-    __CPROVER_ensures((__CPROVER_return_value == FAIL && VKEY_OK(vkey) && g_k < g_vg->nvelt) ==> !DT_M(g_k));
+    __CPROVER_ensures((__CPROVER_return_value == FAIL && VKEYW_OK(vkey) && g_k < g_vg->nvelt) ==> !DT_M(g_k));
 
 /* Vinqtagref: TRUE iff some member equals (tag,ref).  Pointwise: TRUE => handle valid and the
    group is not empty; FALSE with a valid handle => ghost member k does not match. */
@@ -426,7 +428,7 @@ h_Vdeletetagref(void)
     uint16 old_n = vg->nvelt;
     int    r     = Vdeletetagref(vkey, tag, ref);
     H4V_COVER(r == SUCCEED && old_n > 2, "Vdeletetagref success");
-    H4V_COVER(r == FAIL && VKEY_OK(vkey) && old_n > 0, "Vdeletetagref no match");
+    H4V_COVER(r == FAIL && VKEYW_OK(vkey) && old_n > 0, "Vdeletetagref no match");
     H4V_COVER(r == FAIL && !VKEY_OK(vkey), "Vdeletetagref bad handle");
     H4V_CANARY("Vdeletetagref end");
 }
@@ -751,7 +753,7 @@ h_Vdeletetagref_model(void)
             f = k; /* first match */
     }
     int r = Vdeletetagref(vkey, tag, ref);
-    if (!VKEY_OK(vkey) || f > MM_N) {
+    if (!VKEYW_OK(vkey) || f > MM_N) {
         H4V_CHECK(r == FAIL && vg->nvelt == n && vg->marked == m0, "Vdeletetagref: no match or bad handle => FAIL, count kept");
         for (unsigned k = 0; k < MM_N; k++)
             H4V_CHECK(k >= n || (vg->tag[k] == ot[k] && vg->ref[k] == orf[k]), "Vdeletetagref: FAIL changes no member");
